@@ -255,20 +255,20 @@ Definition e_nbsp : str := [38; 110; 98; 115; 112; 59].
 
 Definition r2_match (s : str) : option (str * nat) :=
   match s with
-  | 60 :: a :: b :: t =>
-      if (lower a =? 116) && ((lower b =? 100) || (lower b =? 104)) && at_boundary t then
+  | c0 :: a :: b :: t =>
+      if (c0 =? 60) && (lower a =? 116) && ((lower b =? 100) || (lower b =? 104)) && at_boundary t then
         let (attrs, t1) := span (fun c => negb (c =? 62)) t in
         match t1 with
-        | 62 :: t2 =>
+        | _ :: t2 =>                         (* the ">" that stopped [^>]* *)
             let w := ws_run t2 in
             match skipn w t2 with
-            | 60 :: 47 :: a' :: b' :: 62 :: _ =>
-                if (lower a' =? lower a) && (lower b' =? lower b)
-                then Some ((60 :: a :: b :: attrs ++ [62]) ++ e_nbsp ++ [60; 47; a'; b'; 62], (3 + length attrs + 1 + w + 5)%nat)
+            | c1 :: c2 :: a' :: b' :: c5 :: _ =>
+                if (c1 =? 60) && (c2 =? 47) && (c5 =? 62) && (lower a' =? lower a) && (lower b' =? lower b)
+                then Some ((c0 :: a :: b :: attrs ++ [62]) ++ e_nbsp ++ [c1; c2; a'; b'; c5], (3 + length attrs + 1 + w + 5)%nat)
                 else None
             | _ => None
             end
-        | _ => None
+        | [] => None
         end
       else None
   | _ => None
